@@ -162,7 +162,7 @@ def _validate(mod):
         raise TranslateError("%s: latency result is not float(round(m))" % W)
     # ---- throughput branch
     tp = branches["tp"]
-    fors = [n for n in tp.body if isinstance(n, ast.For)]
+    fors = [n for n in tp.body if isinstance(n, ast.For) and any(isinstance(x, ast.Return) for x in ast.walk(n))]
     if len(fors) != 1 or not _is_name(fors[0].target):
         raise TranslateError("%s: for loop over reciprocals not found" % W)
     loop = fors[0]
